@@ -452,6 +452,11 @@ def random_wide_case(rng: random.Random, fam: str):
 
 
 WIDE_FIXED = [
+    # regression: the same item text can be kept from different list elements under the undecided readings;
+    # the order clause must hold for one of the candidate parses with the observed items, not for an arbitrary one
+    ("charset", "latin1;q = 0.001; , X-Bar;q=1.0000 ,latin1;Q=1.;", ["latin-1", "latin1", "Latin1"]),
+    ("accept", "x-gzip;q=1. ,identity;Q=\t, identity;\tQ=00.5 ,x-gzip;q= abc", ["x-gzip"]),
+    ("charset", "X-Bar;;q=1. , x-foo;Q=1.00000,X-Bar;q=0.0001;q=1, utf-8;q=abc", ["utf-8", "iso-8859-1", "US-ASCII", "utf-8"]),
     ("mime", 'text/html;title="a,b;c";q=0.5', ["text/html", "text/plain"]),
     ("mime", 'text/html;title="a,b;c";q=0.5, text/plain;q=0.6', ["text/html", "text/plain"]),
     ("mime", 'text/html;level="1";q=0.5, text/html;q=0.4', ["text/html;level=1", "text/html"]),
